@@ -713,9 +713,9 @@ Proof.
   - inversion H as [|? ? Ht Hl]; subst.
     change (t :: l) with ([t] ++ l). rewrite wsum_app, <- (IH Hl).
     unfold wsum at 1. cbn [map qsum fold_right].
-    rewrite <- (fsum_pick n (fst t) (fun i => w i * snd t) Ht), <- fsum_add.
-    apply fsum_ext. intros i _. cbn [app]. rewrite fraw_at_cons.
-    destruct (Nat.eqb (fst t) i); ring.
+    transitivity (fsum n (fun i => (if Nat.eqb (fst t) i then w i * snd t else 0) + w i * fraw_at l i)).
+    + apply fsum_ext. intros i _. cbn [app]. rewrite fraw_at_cons. destruct (Nat.eqb (fst t) i); ring.
+    + rewrite fsum_add. rewrite (fsum_pick n (fst t) (fun i => w i * snd t) Ht). ring.
 Qed.
 
 (* w, restricted to the six numbers of a finite element, is a movement that costs the element
@@ -794,3 +794,103 @@ Proof.
   rewrite (fsum_weighted_fraw n w (all_fterms bars) Hf).
   rewrite (free_mode_no_work_all w u bars Hmode). ring.
 Qed.
+
+(* ---------- the three rigid movements of the plane are free for every element ---------- *)
+
+(* what a number stands for: its component (0 = x, 1 = y, 2 = rotation) and the position of the
+   slice node(s) that carry it *)
+Record label := { lb_comp : nat; lb_x : Q; lb_y : Q }.
+
+Definition labelled_node (lab : nat -> label) (nd : pnode Q) (d : dof3) : Prop :=
+  lb_comp (lab (fst (fst d))) = 0%nat /\ lb_comp (lab (snd (fst d))) = 1%nat /\ lb_comp (lab (snd d)) = 2%nat /\
+  lb_x (lab (fst (fst d))) == pn_x nd /\ lb_y (lab (fst (fst d))) == pn_y nd /\
+  lb_x (lab (snd (fst d))) == pn_x nd /\ lb_y (lab (snd (fst d))) == pn_y nd.
+
+(* both nodes of the element are labelled and the lead node sits where the bar's direction puts it *)
+Definition labelled (lab : nat -> label) (sl : slice) : Prop :=
+  labelled_node lab (s_na sl) (s_da sl) /\ labelled_node lab (s_nb sl) (s_db sl) /\
+  pn_x (s_nb sl) == pn_x (s_na sl) + b_c (s_b sl) * slice_len (s_b sl) (s_na sl) (s_nb sl) /\
+  pn_y (s_nb sl) == pn_y (s_na sl) + b_s (s_b sl) * slice_len (s_b sl) (s_na sl) (s_nb sl).
+
+Definition w_tx (lab : nat -> label) (i : nat) : Q := if Nat.eqb (lb_comp (lab i)) 0 then 1 else 0.
+Definition w_ty (lab : nat -> label) (i : nat) : Q := if Nat.eqb (lb_comp (lab i)) 1 then 1 else 0.
+(* unit small rotation about (px, py) *)
+Definition w_rot (lab : nat -> label) (px py : Q) (i : nat) : Q :=
+  match lb_comp (lab i) with
+  | 0%nat => - (lb_y (lab i) - py)
+  | 1%nat => lb_x (lab i) - px
+  | _ => 1
+  end.
+
+Lemma slice_len_parts (b : bar Q) na nb : ~ slice_len b na nb == 0 -> ~ b_L b == 0 /\ ~ pn_t nb - pn_t na == 0.
+Proof. intros H. split; intro E; apply H; unfold slice_len; rewrite E; ring. Qed.
+
+Lemma six_cases q : (q < 6)%nat -> q = 0%nat \/ q = 1%nat \/ q = 2%nat \/ q = 3%nat \/ q = 4%nat \/ q = 5%nat.
+Proof. lia. Qed.
+
+Lemma free_tx lab sl : labelled lab sl -> ~ slice_len (s_b sl) (s_na sl) (s_nb sl) == 0 -> free_mode (w_tx lab) sl.
+Proof.
+  intros ((A1 & A2 & A3 & _) & (B1 & B2 & B3 & _) & _) Hl q Hq.
+  destruct (slice_len_parts _ _ _ Hl) as (HL & Ht).
+  unfold s_nums, slice_numbers, d3_list, s_k, w_tx. destruct (s_da sl) as [[a1 a2] a3], (s_db sl) as [[b1 b2] b3].
+  cbn [fst snd] in *. cbn [app seq map nth qsum fold_right].
+  rewrite A1, A2, A3, B1, B2, B3. cbn [Nat.eqb].
+  unfold stiff_gen, entry.
+  destruct (six_cases q Hq) as [-> | [-> | [-> | [-> | [-> | ->]]]]]; cbn [nth nadd nmul nsub ndiv nopp nofZ n0 n1 QOps]; field; auto.
+Qed.
+
+Lemma free_ty lab sl : labelled lab sl -> ~ slice_len (s_b sl) (s_na sl) (s_nb sl) == 0 -> free_mode (w_ty lab) sl.
+Proof.
+  intros ((A1 & A2 & A3 & _) & (B1 & B2 & B3 & _) & _) Hl q Hq.
+  destruct (slice_len_parts _ _ _ Hl) as (HL & Ht).
+  unfold s_nums, slice_numbers, d3_list, s_k, w_ty. destruct (s_da sl) as [[a1 a2] a3], (s_db sl) as [[b1 b2] b3].
+  cbn [fst snd] in *. cbn [app seq map nth qsum fold_right].
+  rewrite A1, A2, A3, B1, B2, B3. cbn [Nat.eqb].
+  unfold stiff_gen, entry.
+  destruct (six_cases q Hq) as [-> | [-> | [-> | [-> | [-> | ->]]]]]; cbn [nth nadd nmul nsub ndiv nopp nofZ n0 n1 QOps]; field; auto.
+Qed.
+
+Lemma free_rot lab px py sl : labelled lab sl -> ~ slice_len (s_b sl) (s_na sl) (s_nb sl) == 0 ->
+  b_c (s_b sl) * b_c (s_b sl) + b_s (s_b sl) * b_s (s_b sl) == 1 -> free_mode (w_rot lab px py) sl.
+Proof.
+  intros ((A1 & A2 & A3 & AX1 & AY1 & AX2 & AY2) & (B1 & B2 & B3 & BX1 & BY1 & BX2 & BY2) & GX & GY) Hl Hcs q Hq.
+  destruct (slice_len_parts _ _ _ Hl) as (HL & Ht).
+  assert (Hs2 : b_s (s_b sl) * b_s (s_b sl) == 1 - b_c (s_b sl) * b_c (s_b sl)) by (rewrite <- Hcs; ring).
+  unfold s_nums, slice_numbers, d3_list, s_k, w_rot. destruct (s_da sl) as [[a1 a2] a3], (s_db sl) as [[b1 b2] b3].
+  cbn [fst snd] in *. cbn [app seq map nth qsum fold_right].
+  rewrite A1, A2, A3, B1, B2, B3.
+  rewrite AY1, AX2, BY1, BX2, GX, GY. unfold slice_len.
+  set (x := pn_x (s_na sl)). set (y := pn_y (s_na sl)). clearbody x y.
+  unfold stiff_gen, entry.
+  destruct (six_cases q Hq) as [-> | [-> | [-> | [-> | [-> | ->]]]]]; cbn [nth nadd nmul nsub ndiv nopp nofZ n0 n1 QOps]; field [Hs2]; auto.
+Qed.
+
+(* THEOREM (global equilibrium of the assembled system): with every element labelled, the forces at
+   the supported numbers and all assembled nodal loads are in balance - sum of x components, sum of y
+   components, and sum of moments about any point (px, py) *)
+Theorem support_forces_in_global_equilibrium n sup u bars (lab : nat -> label) :
+  Forall (nums_below n) (all_slices bars) ->
+  Forall (fun t => (fst t < n)%nat) (all_fterms bars) ->
+  solves n bars sup u ->
+  (forall i, (i < n)%nat -> row_empty (all_contribs bars) i = true -> fraw_at (all_fterms bars) i == 0) ->
+  Forall (fun sl => no_tiny (s_k sl) /\ labelled lab sl /\ ~ slice_len (s_b sl) (s_na sl) (s_nb sl) == 0 /\
+                    b_c (s_b sl) * b_c (s_b sl) + b_s (s_b sl) * b_s (s_b sl) == 1) (all_slices bars) ->
+  forall w, (w = w_tx lab \/ w = w_ty lab \/ exists px py, w = w_rot lab px py) ->
+  fsum n (fun i => if is_supported sup i then w i * support_force u bars i else 0) + wsum w (all_fterms bars) == 0.
+Proof.
+  intros Hn Hf Hs Horph Hsl w Hw.
+  apply (support_forces_balance_loads n sup u bars w Hn Hf Hs Horph).
+  apply Forall_forall. intros sl Hin. rewrite Forall_forall in Hsl. destruct (Hsl sl Hin) as (Hk & Hlab & Hl & Hcs).
+  split; [exact Hk|].
+  destruct Hw as [-> | [-> | (px & py & ->)]]; [apply free_tx | apply free_ty | apply free_rot]; assumption.
+Qed.
+
+(* the same check with the shared parts computed once (for evaluation on large structures) *)
+Definition interior_private_fast (n : nat) (sup : list nat) (bars : list (pbar Q)) : bool :=
+  let nums := bars_numbers bars in
+  let cs := all_contribs bars in
+  forallb (fun i => Nat.eqb (count_occ Nat.eq_dec nums i) 1 && Nat.ltb i n
+                    && negb (is_supported sup i) && negb (row_empty cs i))
+          (flat_map interior_nums bars).
+Lemma interior_private_fast_eq n sup bars : interior_private_fast n sup bars = interior_private_b n sup bars.
+Proof. reflexivity. Qed.
